@@ -161,4 +161,133 @@ theorem read_cut (cfg : Cfg) (hm : cfg.evMagic < 4294967296) (hsvc : cfg.evMagic
         refine ⟨rfl, rfl, ?_⟩
         simp [commit_evs, ev1, complete, h2]
 
+
+/-! ### a chunk cut anywhere, its later chunks removed -/
+
+/-- a ROTATE_TO record cut before its end: the loop stops (EOF) -/
+theorem step_cut_rotTo (cfg : Cfg) (s : RS) (p : Nat) (c : UInt32) (ts np : Nat) (c' : UInt32) (a b : Nat) (t : Nat) (ht : t < 36)
+    (h : At s p c ((encRotTo ts np c' a b).take t)) :
+    ∃ s', readStep cfg s = .eof s' ∧ s'.eng.evs = s.eng.evs := by
+  have hl : ((encRotTo ts np c' a b).take t).length = t := by simp; omega
+  by_cases h4 : 4 ≤ t
+  · have a4 : atLeast s.rest 4 = true := by rw [atLeast_iff, h.hrest, hl]; exact h4
+    have a36 : atLeast s.rest levRotateSize = false := by
+      rw [Bool.eq_false_iff]; intro hh; rw [atLeast_iff, h.hrest, hl] at hh; simp [levRotateSize] at hh; omega
+    have hk : kindOf (rd32 s.rest) = .rotTo := by
+      rw [h.hrest, rd32_take h4]
+      have := rd32_rotTo ts np c' a b []; simp at this; rw [this]; decide
+    exact ⟨preCommit s, by simp [readStep, a4, hk, stepKind, stepRotTo, a36], by simp⟩
+  · have a4 : atLeast s.rest 4 = false := by
+      rw [Bool.eq_false_iff]; intro hh; rw [atLeast_iff, h.hrest, hl] at hh; omega
+    exact ⟨preCommit s, by simp [readStep, a4], by simp⟩
+
+/-- events of the CURRENT chunk that are complete in its first `t` bytes (the chunk ends with the append that rotates) -/
+def completeC (cfg : Cfg) (w : WS) : List Ap → Nat → Nat
+  | [], _ => 0
+  | a :: as, t =>
+    if pad4 (8 + a.body.length) ≤ t then
+      (if (apA cfg w a).length ≤ t then
+        (if rotates cfg w a then 0 else completeC cfg (apNext cfg w a) as (t - (apA cfg w a).length)) + 1
+       else 1)
+    else 0
+
+/-- what follows the event/crc bytes of the first append in its chunk -/
+def chunkTail (cfg : Cfg) (w : WS) (a : Ap) (as : List Ap) : Bytes :=
+  if rotates cfg w a then apRT cfg w a else (layoutC cfg (apNext cfg w a) as ([], [])).1
+
+theorem layout_head (cfg : Cfg) (w : WS) (a : Ap) (as : List Ap) :
+    (layoutC cfg w (a :: as) ([], [])).1 = apA cfg w a ++ chunkTail cfg w a as := by
+  simp only [layoutC, chunkTail]; split <;> rfl
+
+/-- reading the current chunk cut at `t` (whatever chunks followed it are gone): no error, exactly the complete events -/
+theorem read_chunk_cut (cfg : Cfg) (hm : cfg.evMagic < 4294967296) (hsvc : cfg.evMagic ∉ serviceMagics) :
+    ∀ (as : List Ap) (w : WS) (s : RS) (t fuel : Nat),
+      (∀ a ∈ as, a.body.length < 4294967296 ∧ a.ts < 4294967296) →
+      At s w.offG w.crc ((layoutC cfg w as ([], [])).1.take t) → t / 4 + 2 ≤ fuel → t ≤ (layoutC cfg w as ([], [])).1.length →
+      (readLoop cfg fuel s).err = none ∧
+      (readLoop cfg fuel s).s.eng.evs = ((offsR cfg w as).take (completeC cfg w as t)).reverse ++ s.eng.evs
+  | [], w, s, t, fuel, _, h, hf, _ => by
+    obtain ⟨f, rfl⟩ : ∃ f, fuel = f + 1 := ⟨fuel - 1, by omega⟩
+    have hr : s.rest = [] := by rw [h.hrest]; simp [layoutC]
+    rw [readLoop_nil cfg f s hr]
+    simp [offsR, completeC]
+  | a :: as, w, s, t, fuel, hsz, h, hf, htl => by
+    have hb := (hsz a (List.mem_cons_self ..)).1
+    have hts := (hsz a (List.mem_cons_self ..)).2
+    have hsz' : ∀ a' ∈ as, a'.body.length < 4294967296 ∧ a'.ts < 4294967296 := fun a' h' => hsz a' (List.mem_cons_of_mem _ h')
+    rw [layout_head] at h htl
+    have hcp := (apMid_fields cfg w a).2.2.2
+    have hAl : (apA cfg w a).length = pad4 (8 + a.body.length) + (crcPart cfg w a.ev).length := by simp [apA]
+    by_cases h1 : (apA cfg w a).length ≤ t
+    · have hpad : pad4 (8 + a.body.length) ≤ t := by omega
+      rw [List.take_append, List.take_of_length_le h1] at h
+      obtain ⟨k, s1, hk1, hk8, hloop, at1, ev1⟩ := read_A cfg hm hsvc w a hb hts s _ h
+      by_cases hr : rotates cfg w a = true
+      · -- the append that ends the chunk: ROTATE_TO complete or cut
+        simp only [chunkTail, hr, if_true] at at1 htl
+        have htl' : t - (apA cfg w a).length ≤ 36 := by simp [apRT] at htl; omega
+        obtain ⟨f, rfl⟩ : ∃ f, fuel = f + 1 + k := ⟨fuel - 1 - k, by omega⟩
+        rw [hloop]
+        by_cases h36 : t - (apA cfg w a).length = 36
+        · have at1' : At s1 (apMid cfg w a).offG (apMid cfg w a).crc
+              (encRotTo a.ts ((apMid cfg w a).offG + 36) (apMid cfg w a).crc (apCur cfg w a) a.h2 ++ []) := by
+            rw [h36] at at1
+            rw [List.take_of_length_le (by simp [apRT])] at at1
+            simpa [apRT] using at1
+          obtain ⟨s2, st2, _, ev2, _, _⟩ := step_rotTo cfg s1 _ _ _ _ _ _ _ [] at1'
+          rw [readLoop_rotated _ st2]
+          refine ⟨rfl, ?_⟩
+          simp [commit_evs, ev2, ev1, offsR, completeC, hpad, h1, hr]
+        · obtain ⟨s2, st2, ev2⟩ := step_cut_rotTo cfg s1 (apMid cfg w a).offG (apMid cfg w a).crc a.ts ((apMid cfg w a).offG + 36)
+            (apMid cfg w a).crc (apCur cfg w a) a.h2 (t - (apA cfg w a).length) (by omega) (by simpa [apRT] using at1)
+          rw [readLoop_eof _ st2]
+          refine ⟨rfl, ?_⟩
+          simp [commit_evs, ev2, ev1, offsR, completeC, hpad, h1, hr]
+      · have hr' : rotates cfg w a = false := by simpa using hr
+        obtain ⟨_, hnx⟩ := apNext_offG_ge cfg w a
+        have hcrc := (apNext_fields cfg w a).2
+        simp only [hr', Bool.false_eq_true, if_false] at hnx hcrc
+        simp only [chunkTail, hr', Bool.false_eq_true, if_false] at at1 htl
+        obtain ⟨f, rfl⟩ : ∃ f, fuel = f + k := ⟨fuel - k, by omega⟩
+        have at1' : At s1 (apNext cfg w a).offG (apNext cfg w a).crc
+            ((layoutC cfg (apNext cfg w a) as ([], [])).1.take (t - (apA cfg w a).length)) := by
+          rw [← hnx, hcrc]; simpa using at1
+        have ih := read_chunk_cut cfg hm hsvc as (apNext cfg w a) s1 (t - (apA cfg w a).length) f hsz' at1' (by omega)
+          (by simp at htl; omega)
+        rw [hloop]
+        refine ⟨ih.1, ?_⟩
+        rw [ih.2, ev1]
+        simp [offsR, completeC, hpad, h1, hr', List.take_succ_cons]
+    · by_cases h2 : pad4 (8 + a.body.length) ≤ t
+      · have hcne : needCrc cfg (appendLev cfg w (encEvent cfg.evMagic a.body)) = true := by
+          by_cases hc : needCrc cfg (appendLev cfg w (encEvent cfg.evMagic a.body)) = true
+          · exact hc
+          · rw [if_neg hc] at hcp; rw [hcp] at hAl; simp at hAl; omega
+        rw [if_pos hcne] at hcp
+        have hrest : (apA cfg w a ++ chunkTail cfg w a as).take t
+            = padded (encEvent cfg.evMagic a.body) ++
+              (encCrc a.ts (w.offG + pad4 (8 + a.body.length)) (cfg.upd w.crc (padded (encEvent cfg.evMagic a.body)))).take (t - pad4 (8 + a.body.length)) := by
+          rw [List.take_append, show t - (apA cfg w a).length = 0 by omega, List.take_zero, List.append_nil]
+          simp only [apA, hcp]
+          rw [List.take_append, List.take_of_length_le (by simp; exact h2)]
+          simp
+        rw [hrest] at h
+        obtain ⟨s1, st1, at1, ev1⟩ := step_event cfg hm hsvc s w.offG w.crc a.body _ hb h
+        have hlt : t - pad4 (8 + a.body.length) < 20 := by rw [hcp] at hAl; simp at hAl; omega
+        obtain ⟨s2, st2, ev2⟩ := step_cut_crc cfg s1 _ _ a.ts _ _ _ hlt at1
+        obtain ⟨f, rfl⟩ : ∃ f, fuel = f + 1 + 1 := ⟨fuel - 2, by omega⟩
+        rw [readLoop_cont _ st1, readLoop_eof _ st2]
+        refine ⟨rfl, ?_⟩
+        simp [commit_evs, ev2, ev1, offsR, completeC, h2, h1]
+      · have hrest : (apA cfg w a ++ chunkTail cfg w a as).take t = (padded (encEvent cfg.evMagic a.body)).take t := by
+          rw [List.take_append, show t - (apA cfg w a).length = 0 by omega, List.take_zero, List.append_nil]
+          simp only [apA]
+          rw [List.take_append, show t - (padded (encEvent cfg.evMagic a.body)).length = 0 by simp; omega, List.take_zero, List.append_nil]
+        rw [hrest] at h
+        obtain ⟨s1, st1, ev1⟩ := step_cut_event cfg hm hsvc s w.offG w.crc a.body hb t (by omega) h
+        obtain ⟨f, rfl⟩ : ∃ f, fuel = f + 1 := ⟨fuel - 1, by omega⟩
+        rw [readLoop_eof _ st1]
+        refine ⟨rfl, ?_⟩
+        simp [commit_evs, ev1, completeC, h2]
+
 end SH.C18
